@@ -27,6 +27,22 @@ def txt(s):
     return lit(s.encode())
 
 
+def cps(b):
+    return '[' + ';'.join(str(ord(c)) for c in b.decode('utf8')) + ']%N'
+
+
+fmt_sel = []
+for line in open(path):
+    f = line.rstrip('\n').split('\t')
+    if f[0] == 'FMT' and len(f) >= 8 and (f[7] == 'ERR' or f[7].startswith('OK:')):
+        try:
+            binascii.unhexlify(f[6]).decode('utf8')
+            fmt_sel.append(f)
+        except Exception:
+            pass
+if len(fmt_sel) > n:
+    step = len(fmt_sel) / float(n)
+    fmt_sel = [fmt_sel[int(i * step)] for i in range(n)]
 sel, seen = [], set()
 for line in open(path):
     f = line.rstrip('\n').split('\t')
@@ -44,7 +60,7 @@ for line in open(path):
 if len(sel) > n:
     step = len(sel) / float(n)
     sel = [sel[int(i * step)] for i in range(n)]
-if not sel:
+if not sel and not fmt_sel:
     print('VMCHECK cases=0 agree=0 (no eligible case)')
     sys.exit(0)
 d = os.path.join(ROOT, 'build', 'vmcheck')
@@ -83,6 +99,20 @@ with open(vf, 'w') as o:
         else:
             pos = f[12].split('|')
             items.append('agree (%s) false [] [%s]%%Z' % (call, ';'.join('(%s)' % p for p in pos)))
+    # FMT cases: FontConfig.FormatText against Format.format_text (texts and width keys as code points)
+    for f in fmt_sel:
+        ws = []
+        for kv in f[1].split(';'):
+            q = kv.split('=')
+            if len(q) == 2:
+                ws.append('(%s, (%s)%%Z)' % (cps(binascii.unhexlify(q[0])), q[1]))
+        fc = '{| fcDefault := %s; fcFonts := [(%s, {| fWidths := [%s]; fCursor := 0%%Z; fMaxLen := 0%%Z; fNumLines := 0%%Z |})] |}' % (txt('f'), txt('f'), '; '.join(ws))
+        call = 'format_text (%s) (%s) (%s)%%Z (%s)%%Z (%s) (%s)%%Z' % (fc, cps(binascii.unhexlify(f[6])), f[2], f[3], txt(f[4]), f[5])
+        if f[7] == 'ERR':
+            items.append('match %s with None => true | Some _ => false end' % call)
+        else:
+            items.append('match %s with Some x => teq x (%s) | None => false end' % (call, cps(binascii.unhexlify(f[7][3:]))))
+        sel.append(['FMT', '', '', '', '', '', '', '', '', '', f[6], f[7][:2], f[7]])
     o.write('Definition results : list bool := Eval vm_compute in [\n  ' + ';\n  '.join(items) + '].\nPrint results.\n')
 r = subprocess.run(['coqc', '-Q', os.path.join(ROOT, 'coq'), 'Pory', vf], cwd=d, capture_output=True, text=True, timeout=3000)
 m = re.search(r'results\s*=\s*\[(.*?)\]', r.stdout, re.S)
